@@ -1,8 +1,21 @@
 /* C01 / C02 / C15 - grace periods of the real flavors: synchronize_rcu() waits for pre-existing
  * readers (litmus, interval and reclamation oracles) and always returns (deadlock / livelock
  * detection by the scheduler).  One source, built once per flavor. */
+#ifdef GP_WHITEBOX
+/* white-box build (C15): the flavor's source is part of this translation unit, so that the oracle
+ * can walk its static registry */
+#if defined(FLAVOR_MEMB) || defined(FLAVOR_MB)
+#include "urcu.c"
+#elif defined(FLAVOR_QSBR)
+#include "urcu-qsbr.c"
+#else
+#include "urcu-bp.c"
+#endif
+#endif
 #include "vrt.h"
+#ifndef URCU_API_MAP
 #define URCU_API_MAP
+#endif
 #if defined(FLAVOR_MEMB)
 #include <urcu/urcu-memb.h>
 #elif defined(FLAVOR_MB)
@@ -80,6 +93,7 @@ static void check_intervals(const char *what)
  * the interesting interleavings then need no preemption just to get a reader registered */
 static int nready, nexpected;
 static int all_ready(void *a) { (void)a; return nready >= nexpected; }
+#define N_REGTID(t)	(300 + (t))	/* pthread id of thread t while it is a registered reader */
 static void reader_enter(void)
 {
 	rcu_register_thread();
@@ -87,9 +101,46 @@ static void reader_enter(void)
 	rcu_read_lock();	/* bp registers on first use */
 	rcu_read_unlock();
 #endif
+	vrt_note_set(N_REGTID(vrt_tid()), (unsigned long)pthread_self());
 	uatomic_inc(&nready);
 }
-static void reader_leave(void) { rcu_unregister_thread(); }
+static void reader_leave(void)
+{
+	vrt_note_set(N_REGTID(vrt_tid()), 0);	/* bp: the thread exits right after this */
+	rcu_unregister_thread();
+}
+
+/* white-box oracle: at quiescence the registry holds exactly the registered threads */
+static void check_registry(const char *what)
+{
+#ifdef GP_WHITEBOX
+	struct cds_list_head *pos;
+	unsigned found = 0;
+	int n = 0, t;
+
+	vrt_quiet_begin();
+	for (pos = registry.next; pos != &registry; pos = pos->next) {
+#ifdef FLAVOR_BP
+		unsigned long tid = (unsigned long)cds_list_entry(pos, struct urcu_bp_reader, node)->tid;
+#else
+		unsigned long tid = (unsigned long)cds_list_entry(pos, __typeof__(URCU_TLS(rcu_reader)), node)->tid;
+#endif
+		VRT_CHECK(++n <= 16, "%s: the reader registry does not terminate", what);
+		VRT_CHECK(pos->next->prev == pos && pos->prev->next == pos, "%s: reader registry links are inconsistent", what);
+		for (t = 0; t < 8; t++)
+			if (vrt_note_get(N_REGTID(t)) == tid)
+				break;
+		VRT_CHECK(t < 8, "%s: the registry holds a thread (%#lx) that has unregistered or exited", what, tid);
+		VRT_CHECK(!(found & (1u << t)), "%s: T%d is in the registry twice", what, t);
+		found |= 1u << t;
+	}
+	for (t = 0; t < 8; t++)
+		VRT_CHECK(!vrt_note_get(N_REGTID(t)) || (found & (1u << t)), "%s: registered thread T%d is missing from the registry", what, t);
+	vrt_quiet_end();
+#else
+	(void)what;
+#endif
+}
 static void wait_readers(int n)
 {
 	nexpected = n;
@@ -129,6 +180,7 @@ static void updater_reg(void)
 #ifndef FLAVOR_BP
 	if (vrt_param("updater_registered", 0)) {
 		rcu_register_thread();
+		vrt_note_set(N_REGTID(0), (unsigned long)pthread_self());
 #ifdef FLAVOR_QSBR
 		if (vrt_param("updater_registered", 0) == 2)
 			rcu_thread_offline();
@@ -145,6 +197,7 @@ static void updater_unreg(void)
 		if (vrt_param("updater_registered", 0) == 2)
 			rcu_thread_online();
 #endif
+		vrt_note_set(N_REGTID(0), 0);
 		rcu_unregister_thread();
 	}
 #endif
@@ -510,7 +563,359 @@ static void run_rereg(void)
 	VRT_CHECK(!(r(2) == 0 && r(3) == 1), "rereg: second section saw x=0 then y=1");
 	VRT_CHECK(!(r(4) == 0 && r(5) == 1), "rereg: other reader saw x=0 then y=1");
 	check_intervals("rereg");
+	do_sync();
+	check_registry("rereg");
 }
+
+/* ---- C15: more registration dynamics --------------------------------------------------------------------------------------- */
+#ifdef FLAVOR_BP
+#include <urcu/static/urcu-bp.h>
+#define MY_SLOT() ((unsigned long)URCU_TLS(urcu_bp_reader))
+#else
+#define MY_SLOT() 0UL
+#endif
+#define N_SLOT(t)	(320 + (t))	/* reader slot address of thread t while it is alive (bp) */
+#define N_SLOTLOG(i)	(340 + (i))	/* slot addresses in order of registration */
+#define N_NSLOT		350
+#define N_GO 351
+static int go_pred(void *a) { (void)a; return (int)vrt_note_get(N_GO); }
+
+/* a thread that has left (unregistered / offline / exited) must not be waited for, even if it then blocks */
+static void *rd_leave_block(void *a)
+{
+	int s, mode = (int)(long)a;
+
+	reader_enter();
+	RD_LOCK();
+	s = sec_begin();
+	setr(0, LD(x));
+	setr(1, LD(y));
+	sec_end(s);
+	RD_UNLOCK();
+#ifdef FLAVOR_QSBR
+	if (mode == 1) {
+		rcu_thread_offline();
+		vrt_await(go_pred, NULL);
+		rcu_thread_online();
+		s = sec_begin();
+		setr(2, LD(x));
+		setr(3, LD(y));
+		sec_end(s);
+		rcu_quiescent_state();
+		reader_leave();
+		return NULL;
+	}
+#endif
+	(void)mode;
+	reader_leave();
+#ifndef FLAVOR_BP
+	vrt_await(go_pred, NULL);	/* blocked for good while not a reader */
+#endif
+	return NULL;
+}
+
+static void run_leave_block(void)
+{
+	pthread_t t;
+
+	pthread_create(&t, NULL, rd_leave_block, (void *)vrt_param("offline", 0));
+	wait_readers(1);
+	ST(x, 1);
+	do_sync();		/* must return although the other thread stays blocked */
+	ST(y, 1);
+	do_sync();
+	vrt_note_set(N_GO, 1);
+	pthread_join(t, NULL);
+	VRT_CHECK(!(r(0) == 0 && r(1) == 1), "leave_block: x=0 then y=1");
+	VRT_CHECK(!(r(2) == 0 && r(3) == 1), "leave_block: second section saw x=0 then y=1");
+	check_intervals("leave_block");
+	check_registry("leave_block");
+}
+
+/* n readers come and go while a grace period runs; bp: the registry grows past its initial capacity */
+static void *rd_churn(void *a)
+{
+	int s, k = (int)(long)a, t = vrt_tid(), u;
+	unsigned long slot;
+
+	reader_enter();
+	RD_LOCK();
+	s = sec_begin();
+	slot = MY_SLOT();
+	if (slot) {
+		for (u = 0; u < 8; u++)
+			VRT_CHECK(u == t || vrt_note_get(N_SLOT(u)) != slot, "churn: live threads T%d and T%d share reader slot %#lx", t, u, slot);
+		vrt_note_set(N_SLOT(t), slot);
+		vrt_note_set(N_SLOTLOG(vrt_note_inc(N_NSLOT) & 7), slot);
+	}
+	setr(k, LD(x));
+	MID();
+	setr(k + 1, LD(y));
+#ifndef FLAVOR_QSBR
+	VRT_CHECK(rcu_read_ongoing(), "churn: rcu_read_ongoing() false inside a section (reader state moved or lost)");
+#endif
+	VRT_CHECK(MY_SLOT() == slot, "churn: reader slot of T%d moved from %#lx to %#lx", t, slot, MY_SLOT());
+	sec_end(s);
+	RD_UNLOCK();
+	if (vrt_param("second_section", 0)) {
+		RD_LOCK();
+		s = sec_begin();
+		VRT_CHECK(MY_SLOT() == slot, "churn: reader slot of T%d moved from %#lx to %#lx", t, slot, MY_SLOT());
+		(void)LD(x);
+		sec_end(s);
+		RD_UNLOCK();
+	}
+	vrt_note_set(N_SLOT(t), 0);
+	reader_leave();
+	return NULL;
+}
+
+static void run_churn(void)
+{
+	pthread_t th[5];
+	int n = (int)vrt_param("n", 3), i, pre = (int)vrt_param("prestart", 1);
+
+#ifdef FLAVOR_BP
+	if (vrt_param("main_registered", 1)) {
+		rcu_read_lock();
+		rcu_read_unlock();
+		vrt_note_set(N_REGTID(0), (unsigned long)pthread_self());
+	}
+#endif
+	for (i = 0; i < pre && i < n; i++)
+		pthread_create(&th[i], NULL, rd_churn, (void *)(long)(2 * i));
+	wait_readers(pre < n ? pre : n);
+	ST(x, 1);
+	for (; i < n; i++)	/* late comers register while the grace period may already be running */
+		pthread_create(&th[i], NULL, rd_churn, (void *)(long)(2 * i));
+	do_sync();
+	ST(y, 1);
+	for (i = 0; i < n; i++)
+		pthread_join(th[i], NULL);
+	for (i = 0; i < n; i++)
+		VRT_CHECK(!(r(2 * i) == 0 && r(2 * i + 1) == 1), "churn: reader %d saw x=0 then y=1", i);
+	check_intervals("churn");
+	do_sync();		/* everybody has left: must not wait for anyone */
+	check_registry("churn");
+}
+
+#ifdef FLAVOR_BP
+/* threads that run one after the other reuse the slot of the exited one */
+static void *rd_once(void *a)
+{
+	(void)a;
+	rcu_read_lock();
+	vrt_note_set(N_SLOTLOG(vrt_note_inc(N_NSLOT) & 7), MY_SLOT());
+	(void)LD(x);
+	rcu_read_unlock();
+	return NULL;
+}
+
+static void run_slot_reuse(void)
+{
+	pthread_t t;
+	int n = (int)vrt_param("n", 4), i;
+
+	rcu_read_lock();
+	rcu_read_unlock();
+	vrt_note_set(N_REGTID(0), (unsigned long)pthread_self());
+	for (i = 0; i < n; i++) {
+		pthread_create(&t, NULL, rd_once, NULL);
+		if (i == 1)
+			do_sync();	/* a grace period while the thread is coming or going */
+		pthread_join(t, NULL);
+	}
+	for (i = 1; i < n; i++)
+		VRT_CHECK(vrt_note_get(N_SLOTLOG(i)) == vrt_note_get(N_SLOTLOG(0)),
+			  "slot_reuse: thread %d got reader slot %#lx, the exited thread's slot %#lx was not reused", i,
+			  vrt_note_get(N_SLOTLOG(i)), vrt_note_get(N_SLOTLOG(0)));
+	VRT_CHECK(vrt_note_get(N_SLOTLOG(0)) != MY_SLOT(), "slot_reuse: a new thread was given the live main thread's slot");
+	do_sync();
+	check_registry("slot_reuse");
+}
+#endif
+
+/* a slot is freed (thread exits) while a later-registered thread is still alive inside a section, then a new
+ * thread registers: it must not be given the live thread's slot; the grace period waits for the live one */
+#define N_GOK(k) (360 + (k))
+static int gok_pred(void *a) { return (int)vrt_note_get(N_GOK((int)(long)a)); }
+static void *rd_hold(void *a)
+{
+	int s, k = (int)(long)a, t = vrt_tid(), u;
+	unsigned long slot;
+
+	reader_enter();
+	RD_LOCK();
+	s = sec_begin();
+	slot = MY_SLOT();
+	if (slot) {
+		for (u = 0; u < 8; u++)
+			VRT_CHECK(u == t || vrt_note_get(N_SLOT(u)) != slot, "slot_hole: live threads T%d and T%d share reader slot %#lx", t, u, slot);
+		vrt_note_set(N_SLOT(t), slot);
+	}
+	setr(k, LD(x));
+	vrt_await(gok_pred, (void *)(long)k);
+	setr(k + 1, LD(y));
+	VRT_CHECK(MY_SLOT() == slot, "slot_hole: reader slot of T%d moved", t);
+#ifndef FLAVOR_QSBR
+	VRT_CHECK(rcu_read_ongoing(), "slot_hole: rcu_read_ongoing() false inside a section");
+#endif
+	sec_end(s);
+	RD_UNLOCK();
+	vrt_note_set(N_SLOT(t), 0);
+	reader_leave();
+	return NULL;
+}
+
+static void *rd_release(void *a)
+{
+	rd_churn(a);
+	vrt_note_set(N_GOK(2), 1);	/* let the held reader finish */
+	return NULL;
+}
+
+static void run_slot_hole(void)
+{
+	pthread_t a, b, c;
+
+#ifdef FLAVOR_BP
+	rcu_read_lock();
+	rcu_read_unlock();
+	vrt_note_set(N_REGTID(0), (unsigned long)pthread_self());
+#endif
+	pthread_create(&a, NULL, rd_hold, (void *)0L);
+	pthread_create(&b, NULL, rd_hold, (void *)2L);
+	wait_readers(2);
+	vrt_note_set(N_GOK(0), 1);
+	pthread_join(a, NULL);		/* first slot free again, second still in use by a thread inside a section */
+	pthread_create(&c, NULL, rd_release, (void *)4L);
+	ST(x, 1);
+	do_sync();			/* must wait for the held reader */
+	ST(y, 1);
+	pthread_join(b, NULL);
+	pthread_join(c, NULL);
+	VRT_CHECK(!(r(2) == 0 && r(3) == 1), "slot_hole: held reader saw x=0 then y=1");
+	VRT_CHECK(!(r(4) == 0 && r(5) == 1), "slot_hole: late reader saw x=0 then y=1");
+	check_intervals("slot_hole");
+	do_sync();
+	check_registry("slot_hole");
+}
+
+/* ---- C19: read-side sections in signal handlers ---------------------------------------------------------------------------- */
+#ifndef FLAVOR_QSBR
+#define N_HCNT 352
+static void sig_handler(void)
+{
+	int before = rcu_read_ongoing(), s, n = (int)vrt_note_inc(N_HCNT), a, b;
+
+	rcu_read_lock();
+	s = sec_begin();
+	if (MY_SLOT()) {
+		unsigned long prev = vrt_note_get(N_SLOT(vrt_tid()));
+
+		VRT_CHECK(!prev || prev == MY_SLOT(), "signal handler: reader slot of T%d changed from %#lx to %#lx (registered twice)",
+			  vrt_tid(), prev, MY_SLOT());
+		vrt_note_set(N_SLOT(vrt_tid()), MY_SLOT());
+	}
+	a = LD(x);
+	b = LD(y);
+	sec_end(s);
+	VRT_CHECK(rcu_read_ongoing(), "signal handler: rcu_read_ongoing() false inside the handler's section");
+	rcu_read_unlock();
+	VRT_CHECK(!!rcu_read_ongoing() == !!before, "signal handler: rcu_read_ongoing() was %d before the handler and is %d after it",
+		  !!before, !!rcu_read_ongoing());
+	vrt_outcome((unsigned long)(a * 2 + b + 8 * n));
+	VRT_CHECK(!(a == 0 && b == 1), "signal handler: its section saw y=1 (post grace period) but x=0 (pre grace period)");
+}
+
+/* memb / mb: the contract covers registered threads only, so the signal is blocked around
+ * (un)registration; bp registers lazily and must cope with the signal at any time */
+static void sig_block(int how)
+{
+#ifndef FLAVOR_BP
+	sigset_t set;
+
+	sigemptyset(&set);
+	sigaddset(&set, SIGUSR1);
+	pthread_sigmask(how, &set, NULL);
+#else
+	(void)how;
+#endif
+}
+
+static void *rd_sig(void *a)
+{
+	int s, nest = (int)(long)a;
+
+	reader_enter();
+	sig_block(SIG_UNBLOCK);
+	VRT_CHECK(!rcu_read_ongoing(), "sig: rcu_read_ongoing() true outside any section");
+	rcu_read_lock();
+	if (nest)
+		rcu_read_lock();
+	s = sec_begin();
+	if (MY_SLOT()) {
+		unsigned long prev = vrt_note_get(N_SLOT(vrt_tid()));
+
+		VRT_CHECK(!prev || prev == MY_SLOT(), "sig: reader slot of T%d changed from %#lx to %#lx (registered twice)", vrt_tid(), prev,
+			  MY_SLOT());
+		vrt_note_set(N_SLOT(vrt_tid()), MY_SLOT());
+	}
+	setr(0, LD(x));
+	MID();
+	setr(1, LD(y));
+	VRT_CHECK(rcu_read_ongoing(), "sig: rcu_read_ongoing() false inside the section");
+	sec_end(s);
+	if (nest)
+		rcu_read_unlock();
+	rcu_read_unlock();
+	VRT_CHECK(!rcu_read_ongoing(), "sig: rcu_read_ongoing() true after the outermost unlock");
+	sig_block(SIG_BLOCK);
+	reader_leave();
+	return NULL;
+}
+
+static struct rcu_head sig_head;
+static void sig_cb(struct rcu_head *h) { (void)h; vrt_note_inc(353); }
+
+static void run_sig(void)
+{
+	pthread_t t;
+	int target = (int)vrt_param("target", 1);	/* 1: reader thread, 2: updater (main) thread, 3: both */
+
+	sig_block(SIG_BLOCK);		/* inherited by the reader thread */
+#ifndef FLAVOR_BP
+	rcu_register_thread();		/* the updater's handler uses the read side too */
+#else
+	if (vrt_param("main_registered", 1)) {
+		rcu_read_lock();
+		rcu_read_unlock();
+	}
+#endif
+	vrt_signal_setup((target & 1 ? 2u : 0u) | (target & 2 ? 1u : 0u), sig_handler);
+	pthread_create(&t, NULL, rd_sig, (void *)vrt_param("nest", 0));
+	sig_block(SIG_UNBLOCK);
+	wait_readers(1);
+	ST(x, 1);
+	if (vrt_param("callrcu", 0)) {
+		call_rcu(&sig_head, sig_cb);
+		rcu_barrier();
+		VRT_CHECK(vrt_note_get(353) == 1, "sig: callback queued by an interrupted call_rcu ran %lu times", vrt_note_get(353));
+	} else
+		do_sync();
+	ST(y, 1);
+	sig_block(SIG_BLOCK);
+	pthread_join(t, NULL);
+	vrt_signal_setup(0, NULL);
+#ifndef FLAVOR_BP
+	rcu_unregister_thread();
+#endif
+	vrt_outcome((unsigned long)(r(0) * 2 + r(1)));
+	VRT_CHECK(!(r(0) == 0 && r(1) == 1), "sig: interrupted section saw x=0 then y=1");
+	if (!vrt_param("callrcu", 0))
+		check_intervals("sig");
+}
+#endif
 
 struct vrt_scenario vrt_scenarios[] = {
 	{ "basic", run_basic, "reader || updater" },
@@ -527,5 +932,14 @@ struct vrt_scenario vrt_scenarios[] = {
 	{ "qsbr", run_qsbr, "qsbr online/quiescent/offline" },
 #endif
 	{ "rereg", run_rereg, "reader registers/unregisters/re-registers around grace periods" },
+	{ "leave_block", run_leave_block, "a thread that left (unregistered/offline/exited) is not waited for" },
+	{ "churn", run_churn, "n readers come and go around a grace period (bp: registry growth)" },
+	{ "slot_hole", run_slot_hole, "a reader exits while a later one is alive in a section; a new one registers" },
+#ifdef FLAVOR_BP
+	{ "slot_reuse", run_slot_reuse, "bp: sequential threads reuse the exited thread's reader slot" },
+#endif
+#ifndef FLAVOR_QSBR
+	{ "sig", run_sig, "signal handler with a read-side section interrupts reader / updater at every point" },
+#endif
 	{ NULL, NULL, NULL }
 };
